@@ -1,6 +1,6 @@
 (* C03 (extension c): conditional bounds for hex-macro repeat groups (parse_hex_macro_sequence) and for the macro replay (invoke_macro_by_id). *)
 From Coq Require Import ZArith NArith List Bool Lia.
-From IE Require Import Model.TermCore Model.AnsiTok Model.Cost Proofs.CostProofs.
+From IE Require Import Model.TermCore Model.AnsiTok Model.Cost Proofs.CostProofs Gen.MacroLimit.
 Import ListNotations.
 Local Open Scope Z_scope.
 
@@ -32,10 +32,10 @@ Qed.
 Definition pend (rr : bool) (rep_n : Z) : Z := if rr then Z.max 0 rep_n else 0.
 Definition glen (rr : bool) (rep_rec : list Z) : Z := if rr then zlen rep_rec else 0.
 Lemma hex_bound_gen : forall s stt rr rep_rec rep_n rec k M, 0 <= M -> hex_reps s stt rr (pend rr rep_n) <= M ->
-  k <= snd (hex_macro_t s stt rr rep_rec rep_n rec k) <= k + zlen s + M * (zlen s + glen rr rep_rec) /\
-  (forall mac, fst (hex_macro_t s stt rr rep_rec rep_n rec k) = Some mac -> zlen mac <= zlen rec + (snd (hex_macro_t s stt rr rep_rec rep_n rec k) - k)).
+  k <= snd (hex_macro_t_before_fix s stt rr rep_rec rep_n rec k) <= k + zlen s + M * (zlen s + glen rr rep_rec) /\
+  (forall mac, fst (hex_macro_t_before_fix s stt rr rep_rec rep_n rec k) = Some mac -> zlen mac <= zlen rec + (snd (hex_macro_t_before_fix s stt rr rep_rec rep_n rec k) - k)).
 Proof.
-  induction s as [|ch r IH]; intros stt rr rep_rec rep_n rec k M HM H; cbn [hex_macro_t hex_reps] in *.
+  induction s as [|ch r IH]; intros stt rr rep_rec rep_n rec k M HM H; cbn [hex_macro_t_before_fix hex_reps] in *.
   - pose proof (zlen_nonneg rep_rec). destruct rr; cbn [fst snd pend glen] in *; unfold repeat_cost.
     + split; [change (zlen (@nil Z)) with 0; nia|]. intros mac E. inversion E. rewrite zlen_app', zlen_repeat_str. lia.
     + split; [change (zlen (@nil Z)) with 0; lia|]. intros mac E. inversion E. lia.
@@ -70,20 +70,77 @@ Proof.
 Qed.
 (* hexmacro_bound: work and expansion are at most (1 + largest repeat count) x length of the definition; the known class is the unclamped count *)
 Lemma hexmacro_bound_l : forall s,
-  snd (hex_macro_t s HFirst false [] 0 [] 0) <= zlen s * (1 + hex_reps s HFirst false 0) /\
-  (forall mac, fst (hex_macro_t s HFirst false [] 0 [] 0) = Some mac -> zlen mac <= zlen s * (1 + hex_reps s HFirst false 0)).
+  snd (hex_macro_t_before_fix s HFirst false [] 0 [] 0) <= zlen s * (1 + hex_reps s HFirst false 0) /\
+  (forall mac, fst (hex_macro_t_before_fix s HFirst false [] 0 [] 0) = Some mac -> zlen mac <= zlen s * (1 + hex_reps s HFirst false 0)).
 Proof.
   intro s. pose proof (hex_reps_ge s HFirst false 0) as H0.
   destruct (hex_bound_gen s HFirst false [] 0 [] 0 (hex_reps s HFirst false 0) H0 ltac:(cbn [pend]; lia)) as [I1 I2]. cbn [glen] in I1.
   change (zlen (@nil Z)) with 0 in *. pose proof (zlen_nonneg s). split; [nia|]. intros mac E. specialize (I2 mac E). nia.
 Qed.
-Lemma hexmacro_bound_cond_l : forall s B, hex_reps s HFirst false 0 <= B -> snd (hex_macro_t s HFirst false [] 0 [] 0) <= zlen s * (1 + B).
+Lemma hexmacro_bound_cond_l : forall s B, hex_reps s HFirst false 0 <= B -> snd (hex_macro_t_before_fix s HFirst false [] 0 [] 0) <= zlen s * (1 + B).
 Proof. intros s B H. destruct (hexmacro_bound_l s) as [H1 _]. pose proof (zlen_nonneg s). nia. Qed.
-Lemma hexmacro_bound_known_l : forall s B, ~ KnownC03_hexrep s B -> snd (hex_macro_t s HFirst false [] 0 [] 0) <= zlen s * (1 + B).
+Lemma hexmacro_bound_known_l : forall s B, ~ KnownC03_hexrep s B -> snd (hex_macro_t_before_fix s HFirst false [] 0 [] 0) <= zlen s * (1 + B).
 Proof. intros s B H. apply hexmacro_bound_cond_l. unfold KnownC03_hexrep in H. lia. Qed.
 (* without a repeat group the scan is linear *)
-Lemma hexmacro_linear_l : forall s, hex_reps s HFirst false 0 = 0 -> snd (hex_macro_t s HFirst false [] 0 [] 0) <= zlen s.
+Lemma hexmacro_linear_l : forall s, hex_reps s HFirst false 0 = 0 -> snd (hex_macro_t_before_fix s HFirst false [] 0 [] 0) <= zlen s.
 Proof. intros s H. pose proof (hexmacro_bound_cond_l s 0 ltac:(lia)). lia. Qed.
+
+(* ---- after the fix (MAX_MACRO_SIZE, Parser::push_repeat_group): unconditional ------------------------------------------------------------- *)
+Lemma push_group_len rec rep_rec rep_n rec' : push_group rec rep_rec rep_n = Some rec' ->
+  zlen rec' = zlen rec + repeat_cost rep_n rep_rec /\ zlen rec' <= MAX_MACRO_SIZE.
+Proof.
+  unfold push_group. destruct (_ <? _) eqn:E; [discriminate|]. intro H; inversion H; subst. apply Z.ltb_ge in E.
+  rewrite zlen_app'. unfold repeat_cost in *. destruct rep_rec as [|c0 r0]; [change (zlen (@nil Z)) with 0 in *; lia|]. rewrite zlen_repeat_str. lia.
+Qed.
+Lemma repeat_cost_nonneg n s : 0 <= repeat_cost n s.
+Proof. unfold repeat_cost. pose proof (zlen_nonneg s). nia. Qed.
+Lemma group_cost_le rec rep_rec rep_n : 0 <= group_cost rec rep_rec rep_n <= Z.max 0 (MAX_MACRO_SIZE - zlen rec).
+Proof.
+  unfold group_cost. destruct (push_group rec rep_rec rep_n) as [rec'|] eqn:E; [|lia].
+  destruct (push_group_len _ _ _ _ E) as [H1 H2]. pose proof (repeat_cost_nonneg rep_n rep_rec). lia.
+Qed.
+Lemma hex_bound_fix : forall s stt rr rep_rec rep_n rec k,
+  k <= snd (hex_macro_t s stt rr rep_rec rep_n rec k) <= k + zlen s + Z.max 0 (MAX_MACRO_SIZE - zlen rec).
+Proof.
+  induction s as [|ch r IH]; intros stt rr rep_rec rep_n rec k; cbn [hex_macro_t].
+  - cbn [snd]. change (zlen (@nil Z)) with 0. pose proof (group_cost_le rec rep_rec rep_n). destruct rr; lia.
+  - rewrite zlen_cons'. pose proof (zlen_nonneg r) as Hr. destruct stt.
+    + destruct ((ch =? 59) && rr).
+      * destruct (push_group rec rep_rec rep_n) as [rec'|] eqn:E; [|cbn [snd]; lia].
+        destruct (push_group_len _ _ _ _ E) as [H1 H2]. pose proof (repeat_cost_nonneg rep_n rep_rec).
+        specialize (IH HFirst false rep_rec rep_n rec' (k + 1 + repeat_cost rep_n rep_rec)). lia.
+      * destruct (ch =? 33); [specialize (IH (HRepeat 0) rr rep_rec rep_n rec (k + 1))|specialize (IH (HSecond ch) rr rep_rec rep_n rec (k + 1))]; lia.
+    + destruct (hex_val c) as [a|]; [|cbn [snd]; lia]. destruct (hex_val (to_upper ch)) as [b|]; [|cbn [snd]; lia]. cbv zeta.
+      destruct rr; [specialize (IH HFirst true (rep_rec ++ [a * 16 + b]) rep_n rec (k + 1)); lia|].
+      specialize (IH HFirst false rep_rec rep_n (rec ++ [a * 16 + b]) (k + 1)). rewrite zlen_app' in IH. change (zlen [a * 16 + b]) with 1 in IH. lia.
+    + destruct (is_digit ch); [specialize (IH (HRepeat (parse_next_number n ch)) rr rep_rec rep_n rec (k + 1)); lia|].
+      destruct (ch =? 59); [specialize (IH HFirst true [] n rec (k + 1)); lia|cbn [snd]; lia].
+Qed.
+Lemma hex_size_fix : forall s stt rr rep_rec rep_n rec k mac, fst (hex_macro_t s stt rr rep_rec rep_n rec k) = Some mac -> zlen mac <= MAX_MACRO_SIZE.
+Proof.
+  induction s as [|ch r IH]; intros stt rr rep_rec rep_n rec k mac; cbn [hex_macro_t].
+  - cbn [fst]. unfold hex_finish. destruct (if rr then push_group rec rep_rec rep_n else Some rec) as [m|]; [|discriminate].
+    destruct (MAX_MACRO_SIZE <? zlen m) eqn:E; [discriminate|]. intro H; inversion H; subst. apply Z.ltb_ge in E. exact E.
+  - destruct stt.
+    + destruct ((ch =? 59) && rr); [destruct (push_group rec rep_rec rep_n); [apply IH|discriminate]|]. destruct (ch =? 33); apply IH.
+    + destruct (hex_val c); [|discriminate]. destruct (hex_val (to_upper ch)); [|discriminate]. cbv zeta. destruct rr; apply IH.
+    + destruct (is_digit ch); [apply IH|]. destruct (ch =? 59); [apply IH|discriminate].
+Qed.
+(* hexmacro_bound (after the fix): work <= characters read + MAX_MACRO_SIZE appended, the stored macro holds at most MAX_MACRO_SIZE characters - whatever the counts *)
+Lemma hexmacro_bound_fix_l : forall s,
+  0 <= snd (hex_macro_t s HFirst false [] 0 [] 0) <= zlen s + MAX_MACRO_SIZE /\
+  (forall mac, fst (hex_macro_t s HFirst false [] 0 [] 0) = Some mac -> zlen mac <= MAX_MACRO_SIZE).
+Proof.
+  intro s. split; [|intros mac H; exact (hex_size_fix _ _ _ _ _ _ _ _ H)].
+  pose proof (hex_bound_fix s HFirst false [] 0 [] 0) as H. change (zlen (@nil Z)) with 0 in H. unfold MAX_MACRO_SIZE in *. lia.
+Qed.
+(* the regression inputs: `!2147483647;41;` and `!3000;41;` are refused after 1 + digits + 2 + 1 steps; `!3000;41;` was 3009 steps before *)
+Lemma hexmacro_refused_l :
+  hex_macro_t [33; 50; 49; 52; 55; 52; 56; 51; 54; 52; 55; 59; 52; 49; 59] HFirst false [] 0 [] 0 = (None, 15) /\
+  hex_macro_t [33; 54; 53; 53; 51; 55; 59; 52; 49; 59] HFirst false [] 0 [] 0 = (None, 10) /\
+  hex_macro_t [33; 51; 48; 48; 48; 59; 52; 49; 59] HFirst false [] 0 [] 0 = (Some (repeat_str 3000 [65]), 3009).
+Proof. repeat split; vm_compute; reflexivity. Qed.
+
 
 (* ---- macro replay --------------------------------------------------------------------------------------------------------------------------- *)
 Lemma geom_nonneg c d : 0 <= c -> 0 <= geom c d.
